@@ -86,10 +86,24 @@ class Explorer:
     # ------------------------------------------------------------------ solver access
     def check(self, *extra) -> str:
         t0 = time.time()
+        self._fallback_model = None
         r = str(self.solver.check(*extra))
+        if r == "unknown":
+            # one retry on a fresh solver (different seed, 3x the time): z3's verdicts on nonlinear paths are timing-sensitive
+            s2 = z3.Solver()
+            s2.set("timeout", self.query_timeout_ms * 3)
+            s2.set("random_seed", 7)
+            s2.add(self.solver.assertions())
+            r = str(s2.check(*extra))
+            self.queries["retried"] = self.queries.get("retried", 0) + 1
+            if r == "sat":
+                self._fallback_model = s2.model()
         self.solver_s += time.time() - t0
         self.queries[r] = self.queries.get(r, 0) + 1
         return r
+
+    def last_model(self):
+        return self._fallback_model if self._fallback_model is not None else self.solver.model()
 
     def add(self, expr):
         self.solver.add(expr)
@@ -134,12 +148,12 @@ class Explorer:
         if guess is None:
             r = self.check(expr)
             if r == "sat":
-                self.model = self.solver.model()
+                self.model = self.last_model()
                 guess = True
             elif r == "unsat":
                 r2 = self.check(z3.Not(expr))
                 if r2 == "sat":
-                    self.model = self.solver.model()
+                    self.model = self.last_model()
                     self.trace.append(False)
                     self.add(z3.Not(expr))
                     return False
@@ -184,7 +198,7 @@ class Explorer:
                 break
             if r != "sat":
                 raise Inconclusive("solver unknown while concretising an integer")
-            vals.append(self.solver.model().eval(term, model_completion=True).as_long())
+            vals.append(self.last_model().eval(term, model_completion=True).as_long())
             if len(vals) > cap:
                 raise Inconclusive(f"symbolic integer with more than {cap} feasible values: {term}")
         if not vals:
